@@ -1099,8 +1099,9 @@ def _low_rank_root(
   # If padding_start < d, then we should have (d - padding_start)
   # zeros at the front of the array.
   if compression_rank < 0:
-    inv_e = jnp.roll(inv_e, -(d - padding_start))
-    u = jnp.roll(u, -(d - padding_start), axis=1)
+    num_pad = d - padding_start if padding_start is not None else 0
+    inv_e = jnp.roll(inv_e, -num_pad)
+    u = jnp.roll(u, -num_pad, axis=1)
     # Denoting the eigenvalues of regularized_input
     # e == [0, low, hi] before
     # this roll corresponds to
